@@ -539,6 +539,84 @@ impl Parser {
                         if !self.peek(&TokenEnum::RightBrace) && !self.peek(&TokenEnum::Comma) {
                             self.expect(&TokenEnum::Semicolon)?;
                         }
+                        // `a[i] op= v` reads and writes `a[i]`, but `i` must be evaluated only once:
+                        // index expressions other than literals and variables are bound to
+                        // temporaries (whose names are not valid identifiers) first. To keep the
+                        // left-to-right order of failures, the place in front of such an index is
+                        // read (and thereby bounds-checked) before the index is evaluated.
+                        let mut accessors = accessors;
+                        let mut index_bindings = vec![];
+                        let mut place = Expr::untyped(
+                            ExprEnum::Identifier(identifier.clone()),
+                            identifier_meta,
+                        );
+                        let mut unchecked_array_access = false;
+                        for (access, _) in accessors.iter_mut() {
+                            match access {
+                                Accessor::ArrayAccess { index, .. } => {
+                                    if !matches!(
+                                        index.inner,
+                                        ExprEnum::NumUnsigned(_, _) | ExprEnum::Identifier(_)
+                                    ) {
+                                        if unchecked_array_access {
+                                            let tmp = format!("<place {}>", index_bindings.len());
+                                            index_bindings.push(Stmt::new(
+                                                StmtEnum::Let(
+                                                    Pattern::untyped(
+                                                        PatternEnum::Identifier(tmp),
+                                                        meta,
+                                                    ),
+                                                    None,
+                                                    place.clone(),
+                                                ),
+                                                meta,
+                                            ));
+                                            unchecked_array_access = false;
+                                        }
+                                        let tmp = format!("<index {}>", index_bindings.len());
+                                        let index_meta = index.meta;
+                                        let index_expr = std::mem::replace(
+                                            index,
+                                            Expr::untyped(
+                                                ExprEnum::Identifier(tmp.clone()),
+                                                index_meta,
+                                            ),
+                                        );
+                                        index_bindings.push(Stmt::new(
+                                            StmtEnum::Let(
+                                                Pattern::untyped(
+                                                    PatternEnum::Identifier(tmp),
+                                                    index_meta,
+                                                ),
+                                                None,
+                                                index_expr,
+                                            ),
+                                            index_meta,
+                                        ));
+                                    }
+                                    place = Expr::untyped(
+                                        ExprEnum::ArrayAccess(
+                                            Box::new(place),
+                                            Box::new(index.clone()),
+                                        ),
+                                        meta,
+                                    );
+                                    unchecked_array_access = true;
+                                }
+                                Accessor::TupleAccess { index, .. } => {
+                                    place = Expr::untyped(
+                                        ExprEnum::TupleAccess(Box::new(place), *index),
+                                        meta,
+                                    );
+                                }
+                                Accessor::StructAccess { field, .. } => {
+                                    place = Expr::untyped(
+                                        ExprEnum::StructAccess(Box::new(place), field.clone()),
+                                        meta,
+                                    );
+                                }
+                            }
+                        }
                         let mut target = Expr::untyped(
                             ExprEnum::Identifier(identifier.clone()),
                             identifier_meta,
@@ -572,10 +650,22 @@ impl Parser {
                             ExprEnum::Op(op, Box::new(target), Box::new(value)),
                             meta,
                         );
-                        Stmt::new(
+                        let assign = Stmt::new(
                             StmtEnum::VarAssign(identifier.clone(), accessors, binary_op),
                             meta,
-                        )
+                        );
+                        if index_bindings.is_empty() {
+                            assign
+                        } else {
+                            index_bindings.push(assign);
+                            Stmt::new(
+                                StmtEnum::Expr(Expr::untyped(
+                                    ExprEnum::Block(index_bindings),
+                                    meta,
+                                )),
+                                meta,
+                            )
+                        }
                     } else {
                         if !self.peek(&TokenEnum::RightBrace) && !self.peek(&TokenEnum::Comma) {
                             self.expect(&TokenEnum::Semicolon)?;
